@@ -277,6 +277,39 @@ def explain(kinds, fault_at, verbose):
 
 
 
+def uninit_prop(kinds: List[int], where: int, verbose: bool) -> bool:
+    """a model with an UNINITIALISED initializer (const_value None) in the main graph (where=0) or owned by the then-branch of an If
+    (where=1), beside 0..1 ordinary initializers: the save must be refused with ValueError before anything is written, model untouched"""
+    ks = [_pick(k, 0, len(KINDS) - 1) for k in kinds]
+    w = _pick(where, 0, 1)
+    verbose = bool(verbose)
+    from crosshair.tracers import NoTracing
+    with NoTracing():
+        d = tempfile.mkdtemp(prefix="vp_c20u_")
+        try:
+            path = os.path.join(d, "m.onnx")
+            model = build(ks + [KINDS.index("sub_small")], d, "m.onnx.data")
+            u = ir.Value(name="uninit", type=ir.TensorType(ir.DataType.FLOAT), shape=ir.Shape([64, 64]))
+            if w == 0:
+                model.graph.initializers["uninit"] = u
+            else:
+                ifn = [n for n in model.graph if n.op_type == "If"][0]
+                ifn.attributes["then_branch"].value.initializers["uninit"] = u
+            snap = _snapshot(model)
+            before = sorted(os.listdir(d))
+            try:
+                T.save_model_with_external_data(model, path, verbose=verbose)
+                return False          # accepted: the written model has lost (or cannot represent) the initializer
+            except ValueError:
+                pass
+            if sorted(os.listdir(d)) != before:
+                return False          # something was written before the refusal
+            after = _snapshot(model)
+            return len(after) == len(snap) and all(a[0] == b[0] and a[1] is b[1] and a[2] is b[2] and a[3] == b[3] for a, b in zip(snap, after))
+        finally:
+            shutil.rmtree(d, ignore_errors=True)
+
+
 def _ob(n, first=None):
     pres = [f"len(kinds) == {n}", f"all(0 <= k < {len(KINDS)} for k in kinds)", f"-1 <= fault_at <= {MAXOPS}"]
     oid = f"c20.real.n{n}"
@@ -298,4 +331,11 @@ def _ob(n, first=None):
 
 
 _FIRST = [k for k in range(len(KINDS)) if KINDS[k] != "ext_dest"]  # ext_dest first: the whole slice is the recorded known region
-OBLIGATIONS = [_ob(0), _ob(1)] + [_ob(2, k) for k in _FIRST] + [_ob(3, k) for k in _FIRST]
+OBLIGATIONS = [_ob(0), _ob(1)] + [_ob(2, k) for k in _FIRST] + [_ob(3, k) for k in _FIRST] + [{
+    "id": "c20.real.uninit", "sig": "kinds: List[int], where: int, verbose: bool",
+    "pres": ["len(kinds) <= 1", f"all(0 <= k < {len(KINDS)} for k in kinds)", "0 <= where <= 1"],
+    "call": "H.uninit_prop(kinds, where, verbose)", "timeout": 200,
+    "functions": ["onnxscript._framework_apis.torch_2_5:save_model_with_external_data"],
+    "bounds": "one uninitialised initializer in the main graph or in the then-branch of an If, beside 0..1 initializers of any kind (symbolic); verbose symbolic",
+    "stubs": [],
+}]
